@@ -427,32 +427,44 @@ func checkC05(c *Check) {
 			c.Req(pidOK, base+":packet-id-nonzero", r5, p.InstrPos(call), "no store of a packet id proved to be in [1,65535] dominates the fragmentation (id 0 marks an unfragmented message; a wrapped id collides with it)")
 			// stop at first error: from a send inside the loop, the loop cannot continue over the error edge
 			stopOK, nSend := true, 0
-			allInstrs(fn, func(in ssa.Instruction) {
-				sc, ok := in.(*ssa.Call)
-				if !ok || !reachableAfter(call, sc) || sc == call {
-					return
-				}
-				errv := sc.Value()
-				if errv == nil || !types.Identical(sc.Type(), types.Universe.Lookup("error").Type()) {
-					return
-				}
-				if sc.Common().IsInvoke() && sc.Common().Method.Name() != "SendMessage" {
-					return
-				}
-				if !sc.Common().IsInvoke() && staticCallee(sc) != nil {
-					return
-				}
-				nSend++
-				nilEdge := func(cond ssa.Value, pol bool) bool {
-					x, isNil, ok := nilTest(cond, pol)
-					return ok && isNil && resolve(x) == ssa.Value(sc)
-				}
-				for _, x := range reachFrom(fn, sc, nil, nilEdge) {
-					if x == ssa.Instruction(sc) {
-						stopOK = false
+			// the sends after the fragmentation: in this function, or in the same-package helper the
+			// fragment slice is handed to
+			var scan func(f *ssa.Function, after ssa.Instruction, depth int)
+			scan = func(f *ssa.Function, after ssa.Instruction, depth int) {
+				allInstrs(f, func(in ssa.Instruction) {
+					sc, ok := in.(*ssa.Call)
+					if !ok || sc == call || (after != nil && !reachableAfter(after, sc)) {
+						return
 					}
-				}
-			})
+					if cal := staticCallee(sc); cal != nil && !sc.Common().IsInvoke() {
+						if depth < 2 && p.IsRepoFn(cal) && len(cal.Blocks) > 0 && fnPkg(cal) == fnPkg(fn) {
+							for _, a := range sc.Common().Args {
+								if _, isSl := a.Type().Underlying().(*types.Slice); isSl && deps(a, depOpts{})[call] {
+									scan(cal, nil, depth+1)
+								}
+							}
+						}
+						return
+					}
+					if sc.Value() == nil || !types.Identical(sc.Type(), types.Universe.Lookup("error").Type()) {
+						return
+					}
+					if sc.Common().IsInvoke() && sc.Common().Method.Name() != "SendMessage" {
+						return
+					}
+					nSend++
+					nilEdge := func(cond ssa.Value, pol bool) bool {
+						x, isNil, ok := nilTest(cond, pol)
+						return ok && isNil && resolve(x) == ssa.Value(sc)
+					}
+					for _, x := range reachFrom(f, sc, nil, nilEdge) {
+						if x == ssa.Instruction(sc) {
+							stopOK = false
+						}
+					}
+				})
+			}
+			scan(fn, call, 0)
 			c.Req(stopOK && nSend >= 1, base+":stop-at-first-error", r5, p.InstrPos(call), "after a failed fragment send the loop continues with the remaining fragments (a partial message is transmitted)")
 		}
 	}
